@@ -118,6 +118,9 @@ var qualifiedMap = map[string]string{
 	"time.Sleep":           "Sleep",
 }
 
+// atomicTypes: the types of sync/atomic; their methods get a scheduling point (atomicCallsIn).
+var atomicTypes = map[string]bool{"Value": true, "Bool": true, "Int32": true, "Int64": true, "Uint32": true, "Uint64": true, "Uintptr": true, "Pointer": true}
+
 var forbidden = map[string]bool{
 	"sync.WaitGroup": true, "sync.Cond": true, "sync.Once": true, "sync.Map": true, "sync.NewCond": true,
 	"sync.OnceFunc": true, "sync.OnceValue": true, "sync.OnceValues": true,
@@ -269,6 +272,30 @@ func simpleExpr(e ast.Expr) bool {
 	return false
 }
 
+// atomicCallsIn finds calls of methods of sync/atomic types (atomic.Value, atomic.Int64, ...) inside a statement.
+func (r *rewriter) atomicCallsIn(n ast.Node) []*ast.CallExpr {
+	var out []*ast.CallExpr
+	if n == nil {
+		return nil
+	}
+	ast.Inspect(n, func(m ast.Node) bool {
+		switch x := m.(type) {
+		case *ast.FuncLit, *ast.BlockStmt:
+			return false
+		case *ast.CallExpr:
+			if sel, ok := x.Fun.(*ast.SelectorExpr); ok {
+				if s := r.info.Selections[sel]; s != nil && s.Kind() == types.MethodVal {
+					if f, ok := s.Obj().(*types.Func); ok && f.Pkg() != nil && f.Pkg().Path() == "sync/atomic" {
+						out = append(out, x)
+					}
+				}
+			}
+		}
+		return true
+	})
+	return out
+}
+
 // recvIn finds receive expressions directly inside stmt-level expressions (not inside function literals).
 func recvIn(n ast.Node) []*ast.UnaryExpr {
 	var out []*ast.UnaryExpr
@@ -322,8 +349,49 @@ func (r *rewriter) recvWaitFor(exprs ...ast.Node) []ast.Stmt {
 	return pre
 }
 
-// rewriteStmt returns the statements replacing st.
+// rewriteStmt returns the statements replacing st; calls of methods of sync/atomic types inside the statement's own
+// expressions get a scheduling point in front of the statement.
 func (r *rewriter) rewriteStmt(st ast.Stmt) []ast.Stmt {
+	var heads []ast.Node
+	switch s := st.(type) {
+	case *ast.ExprStmt, *ast.AssignStmt, *ast.ReturnStmt, *ast.IncDecStmt, *ast.DeclStmt, *ast.SendStmt, *ast.DeferStmt, *ast.GoStmt:
+		heads = []ast.Node{s}
+	case *ast.IfStmt:
+		heads = []ast.Node{s.Init, s.Cond}
+	case *ast.SwitchStmt:
+		heads = []ast.Node{s.Init, s.Tag}
+	case *ast.ForStmt:
+		for _, h := range []ast.Node{s.Init, s.Cond, s.Post} {
+			if h != nil && !isNilNode(h) && len(r.atomicCallsIn(h)) > 0 {
+				r.errorf(s.Pos(), "sync/atomic method call in a for header is not modelled")
+			}
+		}
+	case *ast.RangeStmt:
+		heads = []ast.Node{s.X}
+	}
+	var pre []ast.Stmt
+	for _, h := range heads {
+		if h == nil || isNilNode(h) {
+			continue
+		}
+		for _, c := range r.atomicCallsIn(h) {
+			pre = append(pre, &ast.ExprStmt{X: r.call("AtomicPoint", r.newSite(c.Pos(), "atomic-method", false))})
+		}
+	}
+	return append(pre, r.rewriteStmt1(st)...)
+}
+
+func isNilNode(n ast.Node) bool {
+	switch x := n.(type) {
+	case ast.Stmt:
+		return x == nil
+	case ast.Expr:
+		return x == nil
+	}
+	return false
+}
+
+func (r *rewriter) rewriteStmt1(st ast.Stmt) []ast.Stmt {
 	switch s := st.(type) {
 	case *ast.BlockStmt:
 		s.List = r.rewriteStmtList(s.List)
@@ -611,12 +679,12 @@ func (r *rewriter) exprTop(e ast.Expr) ast.Expr {
 			if to, ok := qualifiedMap[key]; ok {
 				return r.sim(to)
 			}
-			if forbidden[key] || pkg == "sync/atomic" || (pkg == "math/rand") {
+			if forbidden[key] || (pkg == "sync/atomic" && !atomicTypes[name]) || (pkg == "math/rand") {
 				r.errorf(x.Pos(), "%s is not modelled by the simulator", key)
 			}
 		}
 		if sel := r.info.Selections[x]; sel != nil {
-			if m, ok := sel.Obj().(*types.Func); ok && m.Pkg() != nil && (m.Pkg().Path() == "sync" || m.Pkg().Path() == "sync/atomic") && !isPoolMethod(m) {
+			if m, ok := sel.Obj().(*types.Func); ok && m.Pkg() != nil && m.Pkg().Path() == "sync" && !isPoolMethod(m) {
 				r.errorf(x.Pos(), "use of %s.%s that is not a direct call is not modelled", m.Pkg().Path(), m.Name())
 			}
 		}
@@ -653,8 +721,28 @@ func (r *rewriter) rewriteSelect(s *ast.SelectStmt) ast.Stmt {
 				}
 			}
 		}
+		if send, isSend := cc.Comm.(*ast.SendStmt); isSend {
+			// send case: channel and value are evaluated once on entering the select, as Go does
+			tc := r.tmp("c")
+			send.Chan = r.expr(send.Chan)
+			send.Value = r.expr(send.Value)
+			pre = append(pre, &ast.AssignStmt{Lhs: []ast.Expr{tc}, Tok: token.DEFINE, Rhs: []ast.Expr{send.Chan}})
+			send.Chan = tc
+			if tv, known := r.info.Types[send.Value]; !(known && (tv.Value != nil || tv.IsNil())) {
+				vv := r.tmp("v")
+				pre = append(pre, &ast.AssignStmt{Lhs: []ast.Expr{vv}, Tok: token.DEFINE, Rhs: []ast.Expr{send.Value}})
+				send.Value = vv
+			}
+			chans = append(chans, &ast.CompositeLit{Type: r.sim("SendCase"), Elts: []ast.Expr{&ast.KeyValueExpr{Key: ast.NewIdent("Ch"), Value: tc}}})
+			sw.Body.List = append(sw.Body.List, &ast.CaseClause{
+				List: []ast.Expr{&ast.BasicLit{Kind: token.INT, Value: fmt.Sprint(idx)}},
+				Body: append([]ast.Stmt{send}, body...),
+			})
+			idx++
+			continue
+		}
 		if recv == nil {
-			r.errorf(cc.Pos(), "select case that is not a receive is not modelled")
+			r.errorf(cc.Pos(), "select case that is neither a receive nor a send is not modelled")
 			continue
 		}
 		tv := r.tmp("c")
